@@ -60,6 +60,7 @@ mutual
 inductive F where
   | atom (a : List Lexem) (x : Expr)
   | paren (e : E)
+  | cparen (e : E)
   | call (s : Str) (fn : Function) (e : E)      -- a one-argument function call `fn(e)`
 inductive TTail where
   | nil
@@ -78,6 +79,7 @@ mutual
 def F.toks : F → List Lexem
   | .atom a _ => a
   | .paren e => .open_ :: (e.toks ++ [.close])
+  | .cparen e => .copen :: (e.toks ++ [.cclose])
   | .call s _ e => .raw s :: .open_ :: (e.toks ++ [.close])
 def TTail.toks : TTail → List Lexem
   | .nil => []
@@ -96,6 +98,7 @@ mutual
 def F.tree : F → Expr
   | .atom _ x => x
   | .paren e => e.tree
+  | .cparen e => e.tree
   | .call _ fn e => .func false fn e.tree []
 def TTail.fold : TTail → Expr → Expr
   | .nil, left => left
@@ -115,6 +118,7 @@ mutual
 def F.WF (bs : Bool) : F → Prop
   | .atom a x => AtomOK bs a x
   | .paren e => e.WF bs ∧ boolShorthand bs e.tree = e.tree ∧ e.toks.head? ≠ some .not_
+  | .cparen e => e.WF bs ∧ boolShorthand bs e.tree = e.tree ∧ e.toks.head? ≠ some .not_
   | .call s fn e => Field.ofStr? s = none ∧ Function.ofStr? s = some fn ∧
       e.WF bs ∧ boolShorthand bs e.tree = e.tree ∧ e.toks.head? ≠ some .not_
 def TTail.WF (bs : Bool) : TTail → Prop
@@ -180,9 +184,36 @@ theorem parseCond_close (bs : Bool) (ts : List Lexem) (x : Expr) (r : List Lexem
     subst h1; subst h2
     simp [infixNot, Rest.refl]
 
+theorem parseCond_cclose (bs : Bool) (ts : List Lexem) (x : Expr) (r : List Lexem)
+    (h1 : (parseAddSub bs ts).res = .ok x) (h2 : (parseAddSub bs ts).rest = .cclose :: r)
+    (hn : ts.head? ≠ some .not_) :
+    (parseCond bs ts).res = .ok (boolShorthand bs x) ∧ (parseCond bs ts).rest = .cclose :: r := by
+  unfold parseCond
+  rw [skipNots_id ts hn]
+  simp only [Rest.refl]
+  cases hp : parseAddSub bs ts with
+  | mk res rst le pr =>
+    rw [hp] at h1 h2
+    simp only at h1 h2
+    subst h1; subst h2
+    simp [infixNot, Rest.refl]
+
 theorem parseAnd_close (bs : Bool) (ts : List Lexem) (x : Expr) (r : List Lexem)
     (h1 : (parseCond bs ts).res = .ok x) (h2 : (parseCond bs ts).rest = .close :: r) :
     (parseAnd bs ts).res = .ok x ∧ (parseAnd bs ts).rest = .close :: r := by
+  unfold parseAnd
+  cases hp : parseCond bs ts with
+  | mk res rst le pr =>
+    rw [hp] at h1 h2
+    simp only at h1 h2
+    subst h1; subst h2
+    simp only
+    unfold andLoop
+    simp
+
+theorem parseAnd_cclose (bs : Bool) (ts : List Lexem) (x : Expr) (r : List Lexem)
+    (h1 : (parseCond bs ts).res = .ok x) (h2 : (parseCond bs ts).rest = .cclose :: r) :
+    (parseAnd bs ts).res = .ok x ∧ (parseAnd bs ts).rest = .cclose :: r := by
   unfold parseAnd
   cases hp : parseCond bs ts with
   | mk res rst le pr =>
@@ -206,9 +237,33 @@ theorem parseExpr_close (bs : Bool) (ts : List Lexem) (x : Expr) (r : List Lexem
     unfold exprLoop
     simp
 
+theorem parseExpr_cclose (bs : Bool) (ts : List Lexem) (x : Expr) (r : List Lexem)
+    (h1 : (parseAnd bs ts).res = .ok x) (h2 : (parseAnd bs ts).rest = .cclose :: r) :
+    (parseExpr bs ts).res = .ok x ∧ (parseExpr bs ts).rest = .cclose :: r := by
+  unfold parseExpr
+  cases hp : parseAnd bs ts with
+  | mk res rst le pr =>
+    rw [hp] at h1 h2
+    simp only at h1 h2
+    subst h1; subst h2
+    simp only
+    unfold exprLoop
+    simp
+
 theorem parseParen_open (bs : Bool) (ts : List Lexem) (x : Expr) (r : List Lexem)
     (h1 : (parseExpr bs ts).res = .ok x) (h2 : (parseExpr bs ts).rest = .close :: r) :
     (parseParen bs (.open_ :: ts)).res = .ok x ∧ (parseParen bs (.open_ :: ts)).rest = r := by
+  unfold parseParen
+  simp only
+  generalize parseExpr bs ts = q at h1 h2 ⊢
+  obtain ⟨res, rst, le, pr⟩ := q
+  simp only at h1 h2
+  subst h1; subst h2
+  simp
+
+theorem parseParen_copen (bs : Bool) (ts : List Lexem) (x : Expr) (r : List Lexem)
+    (h1 : (parseExpr bs ts).res = .ok x) (h2 : (parseExpr bs ts).rest = .cclose :: r) :
+    (parseParen bs (.copen :: ts)).res = .ok x ∧ (parseParen bs (.copen :: ts)).rest = r := by
   unfold parseParen
   simp only
   generalize parseExpr bs ts = q at h1 h2 ⊢
@@ -237,6 +292,7 @@ theorem parseParen_call (bs : Bool) (s : Str) (fn : Function) (ts : List Lexem) 
   simp [Expr.setMinus]
 
 theorem stopAdd_close (r : List Lexem) : StopAdd (.close :: r) := trivial
+theorem stopAdd_cclose (r : List Lexem) : StopAdd (.cclose :: r) := trivial
 
 mutual
 /-- a factor -/
@@ -261,6 +317,22 @@ theorem parse_F (bs : Bool) : ∀ (f : F), f.WF bs → ∀ (r ts : List Lexem), 
     have hX := parseExpr_close bs _ _ r hA.1 hA.2
     simp only [F.tree]
     exact parseParen_open bs _ _ r hX.1 hX.2
+  | .cparen e, h, r, ts, hts => by
+    simp only [F.WF] at h
+    obtain ⟨he, hbool, hnot⟩ := h
+    simp only [F.toks, List.cons_append, List.append_assoc] at hts
+    subst hts
+    have hE := parse_E bs e he (.cclose :: r) (e.toks ++ .cclose :: r) (stopAdd_cclose r) rfl
+    have hhead : (e.toks ++ .cclose :: r).head? ≠ some .not_ := by
+      cases hte : e.toks with
+      | nil => simp
+      | cons y ys => rw [hte] at hnot; simpa using hnot
+    have hC := parseCond_cclose bs _ _ r hE.1 hE.2 hhead
+    rw [hbool] at hC
+    have hA := parseAnd_cclose bs _ _ r hC.1 hC.2
+    have hX := parseExpr_cclose bs _ _ r hA.1 hA.2
+    simp only [F.tree]
+    exact parseParen_copen bs _ _ r hX.1 hX.2
   | .call s fn e, h, r, ts, hts => by
     simp only [F.WF] at h
     obtain ⟨hfld, hfn, he, hbool, hnot⟩ := h
